@@ -105,6 +105,33 @@ def run_trace(job):
                     continue
                 h.enable()
                 fact["en"] = True
+            elif k == "EnableLinkUp":
+                if fact["en"]:
+                    continue
+                # the transport connects and is selected while the application thread is still inside enable()
+                n_en = len([e for e in ep.link.events if e["ev"] == "Enable"])
+                fin = {"v": False}
+
+                def do_enable(fin=fin):
+                    h.enable()
+                    fin["v"] = True
+
+                simrt.Thread(target=do_enable, name="app_enable").start()
+                okk, why = s.run_until(lambda: len([e for e in ep.link.events if e["ev"] == "Enable"]) > n_en, max_dt=5)
+                if not okk:
+                    raise Machinery(f"enable() did not reach the transport: {why}")
+                ep.link.connect()
+                s.yield_point()
+                if mode == "passive":
+                    ep.link.feed(link.hsms_frame(stype=1, system=ep.fresh_sys()))
+                for _ in range(4):
+                    s.settle()
+                    pre += data_frames(None)      # answers the Select.req in active mode
+                okk, why = s.run_until(lambda: fin["v"], max_dt=10)
+                if not okk:
+                    raise Machinery(f"enable() did not return: {why}")
+                fact["en"] = True
+                fact["link"] = "up"
             elif k == "Disable":
                 if not fact["en"]:
                     continue
@@ -211,7 +238,9 @@ def run_trace(job):
                                  "t": round(s.now, 3)})
         rec["handler_errors"] = ep.link.handler_errors[:3]
 
+    import secsgem.gem
     s = simrt.run(main, seed=seed, policy=policy, switch_prob=0.3, max_vtime=1e7, wall_timeout=120,
+                  line_lag=((secsgem.gem.GemHandler.enable,), 1.0, 0.05),
                   wake_lag=(("Timer", "secsgem", "Thread"), 0.3, 0.02) if instant else None)
     rec["outcome"] = s.outcome
     if s.outcome != "done":
